@@ -68,6 +68,12 @@ public:
         return v;
     }
 
+    static const std::vector<float>& lf_choices()
+    {
+        static const std::vector<float> v = {0.01f, 0.25f, 0.7f, 3.7f, 16.0f, 1000.0f};
+        return v;
+    }
+
     CasePlan make_plan(int kind, int profile, int typeset_mask, int ts_mode, int nops_lo, int nops_hi)
     {
         CasePlan p;
@@ -147,6 +153,11 @@ public:
         }
         if (profile == P_BULK)
             p.evict_free = false;
+        // max_load_factor is behaviourally invisible (no property mentions it beyond "every finite positive value"), so one case
+        // in four of every profile runs with an unusual one.  Derived from the bits of rseed already drawn: the operation
+        // streams of all other cases stay what they were.
+        if (profile != P_LOADFACTOR && ((c.rseed >> 40) & 3) == 0)
+            c.mlf = lf_choices()[(size_t)((c.rseed >> 44) % lf_choices().size())];
         // time parameters
         if (profile == P_TTLEDGE || rng.chance(1, 2))
             c.ttl_ms = rng.pick(ttl_choices());
